@@ -84,8 +84,8 @@ A_STAT = "f64 accumulation order / rounding is not analysed (the property's equa
 from ..obs import staging as SG, pipeline as PL, durability as DU, termination as TM, refusal as RF
 
 MAILBOX = Ob("C12-D1", "R-DISC", "mailbox discipline: only `switch` stores Some (panics on a second switch); every other access is swap(None)", SG.ob_mailbox)
-WRITER_WRITE = Ob("C12-O1", "R-ORDER", "writer half: update()? dominates every write; four-state dispatch; flush per state", SG.ob_writer_write, floor=2)
-WRITER_UPDATE = Ob("C12-O2", "R-ORDER", "update(): one poll per non-Real state; whole staged content copied with `?` strictly before the state becomes Real", SG.ob_writer_update)
+WRITER_WRITE = Ob("C12-O1", "R-EVAL", "writer half, evaluated over the buffer states with mocked sinks: update()? first, the caller's bytes forwarded once to the current sink, flush per state", SG.ob_writer_write, floor=2)
+WRITER_UPDATE = Ob("C12-O2", "R-EVAL", "update() evaluated on state x mailbox x inmemory x failing I/O operation: one poll per non-Real state; whole staged content copied, propagated with `?`, strictly before the state becomes Real", SG.ob_writer_update)
 WRITER_DROP = Ob("C12-O3", "R-ORDER", "Drop for the writer half: lock -> publish state -> notify, single path", SG.ob_writer_drop)
 CONSUMER = Ob("C12-O4", "R-ORDER", "await_real_file / expect_closed_write / len: wait under the mutex, then poll; copy arms per state (siblings of update)", SG.ob_consumer, floor=3)
 STAGING_TYPES = Ob("C12-T1", "R-TYPE", "neither half (nor BufferState) is Clone/Copy; consuming methods take self by value; both halves share one state", SG.ob_types)
@@ -103,7 +103,7 @@ JOIN_RESULTS = Ob("C14-E2", "R-ERR", "the Result of every joined write task is p
 WRITE_LOOPS = Ob("C13-T2", "R-TERM", "every loop in bbiwrite/bigwigwrite/bigbedwrite/beddata/tempfilebuffer is classified as terminating (A/B/C/R/W)", TM.ob_write_loops, floor=10)
 RTREE_LOOP = Ob("C13-T1", "R-TERM", "get_rtreeindex terminates for every section count (abstract domain {0,1,>=2})", TM.ob_rtree_loop)
 AUTOSQL_LOOPS = Ob("C19-M1", "R-TERM", "all loops of autosql.rs terminate; token loops exit at end of input (abstract run with every token = \"\")", TM.ob_autosql_loops, floor=7)
-CHROM_ORDER = Ob("C13-G8", "R-PRED", "chromosome-order refusal (serial: !allow && prev >= next; parallel: !allow && cur > next), empty input refused, foreign record in a slice refused", RF.ob_chrom_order, floor=4)
+CHROM_ORDER = Ob("C13-G8", "R-PRED+R-EVAL", "chromosome-order refusal (serial: !allow && prev >= next; parallel: !allow && cur > next), empty input refused, foreign record in a slice refused", RF.ob_chrom_order, floor=4)
 PARSE_ERRORS = Ob("C13-G9", "R-ERR", "parse_bed / parse_bedgraph / BedFileStream::next turn every missing or unparsable column into Some(Err)", RF.ob_parse_errors, floor=3)
 INPUT_PANICS = Ob("C13-P1", "R-PANIC", "no unwrap/expect on a value parsed from the data input in the converter CLIs, sources and parsers", RF.ob_input_panics)
 
@@ -114,7 +114,7 @@ LOWERCASE = Ob("C15-T1", "R-TABLE", "every literal compared with a lower-cased s
 OUTPUT_TYPE = Ob("C15-T2", "R-TABLE", "bigwigmerge output type table (endings, --output-type), both outputs consume the same merged iterator, bedGraph line format", MF.ob_output_type, floor=3)
 TRANSFORM = Ob("C15-F2", "R-FLOW", "merged value transform: clip -> + adjust -> keep iff > threshold, applied once per data path (chunked partial merges neutral)", MF.ob_transform, floor=4)
 MERGE_INTO = Ob("C15-C1", "R-CASES", "merge_into: exhaustive case analysis over order types x zero flags (pieces sorted, contiguous, cover the union, value = sum of covering inputs)", MF.ob_merge_into_cases)
-FILL = Ob("C15-G1", "R-FLOW", "FillValues::next: fillers are {last_end, next.start, 0.0} only in gaps; inputs pass unchanged; trailing filler to expected_end", MF.ob_fill)
+FILL = Ob("C15-G1", "R-EVAL", "FillValues::next evaluated on every order type of (last_end, next.start, next.end, expected_end) x held/polled/expected shapes: fillers {last_end, next.start, 0.0} only in gaps; inputs pass unchanged; trailing filler to expected_end", MF.ob_fill)
 COMPAT = Ob("C16-T1", "R-TABLE", "UCSC spellings -unc/-blockSize/-chrom/-start/-end are rewritten (no shadowing) to long flags that the converter commands declare", CL.ob_compat_table, floor=5)
 OPTION_FLOW = Ob("C16-F1", "R-FLOW", "converter CLIs: flags reach the like-named write options; -t 1 -> current-thread runtime + channel 0; 4 source/pass arms consistent", CL.ob_option_flow, floor=2)
 RESTRICT = Ob("C16-F2", "R-FLOW", "restricted output: start/end only with chrom; serial writer receives (chrom,start,end); query (name, start|0, end|length)", CL.ob_restrict, floor=4)
@@ -123,43 +123,43 @@ AVG_SIBS = Ob("C17-S1", "R-SIB", "threaded process_chunk vs serial loop: same ca
 AVG_REASM = Ob("C17-D1", "R-DISC", "chunk results queued and drained FIFO, each fully copied before the next; workers read exactly their chunk's byte range", CL.ob_avg_reassembly, floor=2)
 AVG_ITER = Ob("C17-S2", "R-SIB", "bigwig_average_over_bed (library iterator behind the Python binding): one line read/parsed/named/measured per step, yields (name, stats) of that row", CL.ob_avg_iterator)
 VALUES_OVER_BED = Ob("C17-F1", "R-FLOW", "bigwigvaluesoverbed: per region end-start slots, slot i-start <- value covering base i", CL.ob_values_over_bed)
-FV_SEEK = Ob("C18-B1", "R-BOUND", "FileView::seek: every arm positions the file within [start,end] (exhaustive over order types) with identical epilogues", SL.ob_fileview_seek, floor=4)
-FV_READ = Ob("C18-B4", "R-BOUND", "FileView::read truncates to end-current and advances by the bytes read; new() clamps end and positions at start", SL.ob_fileview_read, floor=2)
+FV_SEEK = Ob("C18-B1", "R-EQUIV", "FileView::seek: per SeekFrom arm the absolute position equals the isolated range's position clamped to [start,end] (decided on a small domain); Ok/Err epilogues; no self-recursion", SL.ob_fileview_seek, floor=4)
+FV_READ = Ob("C18-B4", "R-EQUIV", "FileView::read truncates to end-current and advances by the bytes read; new() clamps end and positions at start", SL.ob_fileview_read, floor=2)
 BISECTION = Ob("C18-I1", "R-CASES", "index_chroms::do_index: every probe outcome records the probed line and recurses on both sides, or narrows the interval to (prev, mid]; arithmetic checked over all small (prev, upper)", SL.ob_bisection)
-CHUNKER = Ob("C18-F1", "R-FLOW", "split_file_into_chunks_by_size: chunks start at 0, end after a full line, are contiguous, cover the file", SL.ob_chunker)
-VIEWS = Ob("C18-F2", "R-FLOW", "parallel source: each chromosome reads FileView[index[i].offset, index[i+1].offset | EOF)", SL.ob_views)
+CHUNKER = Ob("C18-F1", "R-SYMX", "split_file_into_chunks_by_size: chunks start at 0, end after a full line, are contiguous, cover the file", SL.ob_chunker)
+VIEWS = Ob("C18-F2", "R-EVAL", "parallel source: each chromosome reads FileView[index[i].offset, index[i+1].offset | EOF)", SL.ob_views)
 GROUPING = Ob("C18-G1", "R-FLOW", "index_chroms: adjacent duplicates collapsed; ungrouped file detected by sorting a copy BY NAME and comparing lengths", SL.ob_index_grouping)
 GEN_COUNT = Ob("C19-T1", "R-TABLE", "bed_autosql declares 3 + e fields for every e (FIELDS table, two loops, one declaration per iteration)", AQ.ob_generated_count)
-SCHEMA_FLOW = Ob("C19-F1", "R-FLOW", "schema flow: generated from the first line's rest or file verbatim; library default BED3; fieldCount from the parsed declaration", AQ.ob_schema_flow, floor=3)
+SCHEMA_FLOW = Ob("C19-F1", "R-FLOW+R-EVAL", "schema flow: generated from the first line's rest or file verbatim; library default BED3; fieldCount from the parsed declaration", AQ.ob_schema_flow, floor=3)
 GEN_TOKENS = Ob("C19-G1", "R-TABLE", "every field type the generator emits is an arm of FieldType::try_parse; sized form parsed", AQ.ob_generator_tokens)
 SLICES = Ob("C19-P1", "R-PANIC", "autosql parser slices the input only at its cursors; cursors only take char boundaries; no unwrap on input-derived options", AQ.ob_slice_provenance)
 MISSING_TAINT = Ob("C20-F1", "R-FLOW", "`missing` flows only to output fill, unwrap_or defaults, NaN replacement, output allocation (never a scratch accumulator)", PA.ob_missing_taint)
-DIV_GUARDS = Ob("C20-N1", "R-ORDER", "every mean division by a covered-base count in the four bin routines is guarded by count > 0", PA.ob_division_guards, floor=4)
-BIN_SIBS = Ob("C20-S1", "R-SIB", "bin routines: bins/zoom siblings share bookkeeping; in-loop and final flush blocks identical", PA.ob_bin_siblings, floor=2)
+DIV_GUARDS = Ob("C20-N1", "R-EVAL", "every flush of a finished bin, evaluated for the mean with zero coverage, writes `missing` (the division by the covered-base count is guarded)", PA.ob_division_guards, floor=4)
+BIN_SIBS = Ob("C20-S1", "R-EVAL+R-SIB", "bin routines: every flush site (in-loop and final) evaluated for min/max/mean on representative accumulators; sibling bookkeeping compared in normal form", PA.ob_bin_siblings, floor=2)
 DRIVERS = Ob("C20-F2", "R-FLOW", "drivers: clamped query range, oob bins after data fill, bigWig/bigBed drivers identical", PA.ob_drivers, floor=3)
 BIN_ARITH = Ob("C20-B1", "R-BOUND", "bin_bound / bin_of: exact tiling, non-empty bins, integral widths, index and span consistent - evaluated for all small (len, bins, pos)", PA.ob_bin_arithmetic)
 BIN_ROUTINES = Ob("C20-B2", "R-FLOW", "four bin routines: item clamped to the range, items without a base in range skipped, bins via bin_of, spans via bin_bound", PA.ob_bin_routines, floor=4)
 ZOOM_ENTRY_STAT = Ob("C20-Z1", "R-STAT", "to_entry_array_zoom: NaN->0 seed only for the mean; min/max ignore NaN", PA.ob_zoom_entry_stat)
 OOB_FILL = Ob("C20-O1", "R-BOUND", "fill_out_of_bounds: exactly the bins with a base outside [0, length) become oob, indices in range - evaluated for all small (start, end, length, bins)", PA.ob_oob_fill)
-PER_BASE = Ob("C20-A1", "R-STAT", "per-base routines: NaN-seeded, value / +1 per covering entry, NaN -> missing", PA.ob_per_base, floor=2)
+PER_BASE = Ob("C20-A1", "R-EQUIV", "per-base routines: NaN-seeded, value / +1 per covering entry, NaN -> missing", PA.ob_per_base, floor=2)
 
 from ..obs import zoomlist as ZL
 ZOOM_LIST = Ob("C07-Z1", "R-SIB", "zoom size list normalised (zero-free, sorted, duplicate-free, <= MAX_ZOOM_LEVELS) before any per-level state in both pass modes; headers pushed in that order", ZL.ob_zoom_list, floor=6)
 CONTRADICTION = Ob("C02-X1", "R-PRED", "contradiction rule: no record the bigBed writer accepts is refused by the block decoder", PR.ob_reader_writer_contradiction)
 
 from ..obs import queries as QU
-SEARCH_ORDER = Ob("C03-O1", "R-DISC", "index search visits children depth-first in stored order (pop_front + reversed push_front); blocks appended in visit order; chromosome resolved by exact name", QU.ob_search_order, floor=4)
-CACHE = Ob("C03-C1", "R-DISC", "caching reader: key (offset,size) derives Hash+Eq; caches only get/insert/entry/len/clear/clone; values returned are clones", QU.ob_cache, floor=2)
+SEARCH_ORDER = Ob("C03-O1", "R-EVAL", "index search step and collector evaluated on a small balanced tree with mocked node reader: every node once, blocks in stored order, errors yielded; item scans in stored order; chromosome resolved by exact name", QU.ob_search_order, floor=4)
+CACHE = Ob("C03-C1", "R-DISC+R-EVAL", "caching reader: key (offset,size) derives Hash+Eq; caches only get/insert/entry/len/clear/clone; values returned are clones", QU.ob_cache, floor=2)
 CACHED_SIBS = Ob("C03-S2", "R-SIB", "plain vs caching reader: same read_node / nodes_overlapping arguments, same read_block_data; cached() keeps info", QU.ob_cached_siblings, floor=3)
 INTERSECT_TOOL = Ob("C04-T1", "R-FLOW", "bigtools intersect: query = the line's (chrom, start, end); every returned entry printed once, unfiltered", QU.ob_intersect_tool)
-INTERVAL_SIBS = Ob("C03-S3", "R-SIB", "get_interval / get_interval_move (and zoom pair) identical; query reaches search and iterator unchanged; iterators consume blocks in order", QU.ob_interval_siblings, floor=9)
+INTERVAL_SIBS = Ob("C03-S3", "R-SIB+R-EVAL", "get_interval / get_interval_move (and zoom pair) agree; query reaches search and iterator unchanged; the three block iterators' next() evaluated on every 3-block scenario", QU.ob_interval_siblings, floor=9)
 VALUES_ARRAY = Ob("C03-F1", "R-FLOW", "BigWigRead::values: NaN array of end-start, filled at clipped.start-start..clipped.end-start", QU.ob_values_array)
 BLOCK_DATA = Ob("C10-F1", "R-FLOW", "read_block_data: block.size bytes at block.offset; zlib inflate into uncompressBufSize iff > 0", QU.ob_block_data)
 
 from ..obs import offsets as OF
 TREE_OFFSETS = Ob("C05-F1", "R-FLOW", "R-tree offset premises: level sizes, child offset = base + i*full_size by child kind, descent with accumulated offsets, levels written root->leaves", OF.ob_tree_offsets, floor=3)
 EVERY_VALUE = Ob("C06-O1", "R-ORDER", "no early success exit: every accepted value reaches the summary / depth sweep, items buffer, flush test and every zoom level", SW.ob_every_value_processed, floor=6)
-WINDOW = Ob("C15-W1", "R-ORDER", "merge window accumulator, structural clauses only: accumulate-then-extend before any exit, window indices, hold-back, window advance, zero runs dropped", MF.ob_window, floor=5)
+WINDOW = Ob("C15-W1", "R-EQUIV+R-ORDER", "merge window accumulator: slot range, hold-back conditions, extent and advance decided as functions of (window start, value start/end, window size); accumulate-then-extend before any exit; f64 accumulation; zero runs dropped", MF.ob_window, floor=5)
 
 NODE_COUNTS = Ob("C05-N1", "R-BOUND", "R-tree 16-bit child counts: block size capped at 65535 for chunking, node sizes and header", OF.ob_node_counts, floor=2)
 CHROM_TREE_COUNT = Ob("C09-N2", "R-BOUND", "chromosome tree: the single leaf's 16-bit item count must be bounded (or the tree multi-level)", OF.ob_chrom_tree_count)
